@@ -200,10 +200,15 @@ def one_dataset(ctx, rng, xr):
     cond = pos & (tol < 0.5)
 
     def dm_mech(obs):
+        # defect model: the moments are summed over frequency without df. Where that unweighted
+        # resultant vanishes (exact cancellation, e.g. integer-valued spectra on two opposite
+        # directions) the model predicts an arbitrary direction, so any observation is consistent
         alt, R2 = I.dm(E, f64, th, dd, False)
-        c = cond & (R2 > 1e-6 * E.sum((-1, -2)))
-        if c.any() and np.all(circ_diff(obs, alt)[c] <= np.maximum(tol[c], 1e-3)):
-            return "dm-not-weighted-by-df"
+        defined = R2 > 1e-6 * dd * E.sum((-1, -2))
+        c = cond & defined
+        if (cond & ~defined).any() or c.any():
+            if np.all(circ_diff(obs, alt)[c] <= np.maximum(tol[c], 1e-3)):
+                return "dm-not-weighted-by-df"
         return None
 
     r = call("dm", lambda: acc.dm())
